@@ -222,3 +222,48 @@ DOC = {
         ('sign_script_prefix', ''),
     ],
 }
+
+
+# (setup_amhl's refund_pubkeys is annotated dict[bytes | VerifyKey, bytes] but
+# VerifyKey keys are silently ignored; what the refund lock of a hop is lies
+# outside the 20 properties, so that parameter is not varied - DESIGN.md 11)
+# Argument forms docs.md declares interchangeable (annotation `bytes | VerifyKey`
+# etc.): parameter order and the kind of each union-typed parameter.
+FORMS = {
+    'make_adapter_lock_pub': [('pubkey', 'vkey'), ('tweak_point', None), ('sigflags', None)],
+    'make_single_sig_lock': [('pubkey', 'vkey'), ('sigflags', None)],
+    'make_single_sig_lock2': [('pubkey', 'vkey'), ('sigflags', None)],
+    'make_single_sig_witness': [('prvkey', 'skey'), ('sigfields', None), ('sigflags', None), ('sign_script_prefix', None)],
+    'make_single_sig_witness2': [('prvkey', 'skey'), ('sigfields', None), ('sigflags', None), ('sign_script_prefix', None)],
+    'make_multisig_lock': [('pubkeys', 'vkeys'), ('quorum_size', None), ('sigflags', None)],
+    'make_adapter_locks_pub': [('pubkey', 'vkey'), ('tweak_point', None), ('sigflags', None)],
+    'decrypt_adapter': [('adapter_witness', 'script_or_bytes'), ('tweak', None)],
+    'make_adapter_locks_prv': [('pubkey', 'vkey'), ('tweak', None), ('sigflags', None)],
+    'make_adapter_witness': [('prvkey', 'skey'), ('tweak_point', None), ('sigfields', None), ('sigflags', None), ('sign_script_prefix', None)],
+    'make_delegate_key_lock': [('root_pubkey', 'vkey'), ('sigflags', None)],
+    'make_delegate_key_cert': [('root_skey', 'skey'), ('delegate_pubkey', 'vkey'), ('begin_ts', None), ('end_ts', None), ('can_further_delegate', None)],
+    'make_delegate_key_witness': [('delegate_prvkey', 'skey'), ('cert', 'cert'), ('sigfields', None), ('sigflags', None), ('sign_script_prefix', None)],
+    'make_delegate_key_chain_witness': [('delegate_prvkey', 'skey'), ('certs', 'certs'), ('sigfields', None), ('sigflags', None), ('sign_script_prefix', None)],
+    'make_htlc_sha256_lock': [('receiver_pubkey', 'vkey'), ('refund_pubkey', 'vkey'), ('preimage', None), ('digest', None), ('timeout', None), ('sigflags', None)],
+    'make_htlc_shake256_lock': [('receiver_pubkey', 'vkey'), ('refund_pubkey', 'vkey'), ('preimage', None), ('digest', None), ('hash_size', None), ('timeout', None), ('sigflags', None)],
+    'make_htlc_witness': [('prvkey', 'skey'), ('preimage', None), ('sigfields', None), ('sigflags', None), ('sign_script_prefix', None)],
+    'make_htlc2_sha256_lock': [('receiver_pubkey', 'vkey'), ('refund_pubkey', 'vkey'), ('preimage', None), ('digest', None), ('timeout', None), ('sigflags', None)],
+    'make_htlc2_shake256_lock': [('receiver_pubkey', 'vkey'), ('refund_pubkey', 'vkey'), ('preimage', None), ('digest', None), ('hash_size', None), ('timeout', None), ('sigflags', None)],
+    'make_htlc2_witness': [('prvkey', 'skey'), ('preimage', None), ('sigfields', None), ('sigflags', None), ('sign_script_prefix', None)],
+    'make_ptlc_lock': [('receiver_pubkey', 'vkey'), ('refund_pubkey', 'vkey'), ('tweak_point', None), ('timeout', None), ('sigflags', None)],
+    'make_ptlc_witness': [('prvkey', 'skey'), ('sigfields', None), ('tweak_scalar', None), ('sigflags', None), ('sign_script_prefix', None)],
+    'make_ptlc_refund_witness': [('prvkey', 'skey'), ('sigfields', None), ('sigflags', None), ('sign_script_prefix', None)],
+    'make_taproot_lock': [('pubkey', 'vkey'), ('script', None), ('script_commitment', None), ('sigflags', None)],
+    'make_taproot_witness_keyspend': [('prvkey', 'skey'), ('sigfields', None), ('committed_script', None), ('script_commitment', None), ('sigflags', None), ('sign_script_prefix', None)],
+    'make_taproot_witness_scriptspend': [('pubkey', 'vkey'), ('committed_script', None)],
+    'make_nonnative_taproot_lock': [('pubkey', 'vkey'), ('script', None), ('script_commitment', None), ('sigflags', None)],
+    'make_graftap_lock': [('pubkey', 'vkey'), ('sigflags', None)],
+    'make_graftap_witness_keyspend': [('prvkey', 'skey'), ('sigfields', None), ('sigflags', None), ('sign_script_prefix', None)],
+    'make_graftap_witness_scriptspend': [('prvkey', 'skey'), ('surrogate_script', None)],
+    'setup_amhl': [('seed', None), ('pubkeys', 'vkeys'), ('sigflags', None), ('refund_pubkeys', None), ('timeout', None)],
+    'release_left_amhl_lock': [('adapter_witness', 'script_or_bytes'), ('signature', None), ('y', None)],
+    # not listed in docs.md (see above); same annotations in the README examples
+    'make_delegate_key_chain_lock': [('root_pubkey', 'vkey'), ('sigflags', None)],
+    'make_graftroot_lock': [('pubkey', 'vkey'), ('sigflags', None)],
+    'make_graftroot_witness_keyspend': [('prvkey', 'skey'), ('sigfields', None), ('sigflags', None), ('sign_script_prefix', None)],
+}
